@@ -147,6 +147,23 @@ def check_c05(scn):
                 scn.fail("revoked-silence", {"what": "delivered-after-revoke"},
                          f"member c{i} returned {e[4]}@{e[5]} at t={e[1]} after on_partitions_revoked began at t={silent[e[4]]} and before a "
                          f"later on_partitions_assigned included it")
+    # 2b. a member that itself wrote LeaveGroup (max_poll_interval exceeded) has given its partitions up: it knows its
+    # assignment is superseded, so it returns nothing until a later on_partitions_assigned
+    for i, evs in per.items():
+        left_at = None
+        stopping = False
+        for e in evs:
+            kind = e[2]
+            if kind == "stop-begin":
+                stopping = True
+            elif kind == "gw" and e[4] == "LeaveGroup" and not stopping:
+                left_at = e[1]
+            elif kind == "assign-begin":
+                left_at = None
+            elif kind == "deliver" and left_at is not None:
+                scn.fail("revoked-silence", {"what": "delivered-after-leaving-group"},
+                         f"member c{i} returned {e[4]}@{e[5]} at t={e[1]} after it wrote LeaveGroup at t={left_at} and before a later "
+                         f"on_partitions_assigned")
     # 3. nothing fetched under a superseded assignment / subscription is delivered
     for i, evs in per.items():
         adopt_tick = 0
@@ -257,19 +274,24 @@ def _convergence(scn):
     if s1["state"] != "Stable":
         scn.fail("convergence", {"what": "group-not-stable"}, f"at t={s1['t']} the group is {s1['state']} (generation {gen})")
         return
+    # every partition of every subscribed topic that some live member has heard of (a partition no member's metadata
+    # shows yet cannot be covered; the periodic refresh that reveals it is part of the environment, not of the quiet tail)
+    # The group leader is the member that computes assignments and watches the group's topics: what has to be covered are
+    # the partitions of the live members' subscribed topics that the leader's metadata shows.
     want = set()
-    for i, st in live.items():
-        for tname in st["subscription"]:
-            t = scn.cluster.topics.get(tname)
-            if t is not None:
-                want.update((tname, part.index) for part in t.partitions)
+    leader = [st for st in live.values() if st["member_id"] == s1.get("leader")]
+    subscribed = {tname for st in live.values() for tname in st["subscription"]}
+    for tname, pi in (leader[0]["known"] if leader else ()):
+        t = scn.cluster.topics.get(tname)
+        if tname in subscribed and t is not None and pi < len(t.partitions):
+            want.add((tname, pi))
     have = {}
     for i, st in live.items():
         for tp in st["assignment"]:
             if tp in have:
                 scn.fail("convergence", {"what": "two-owners-after-convergence"}, f"at t={s1['t']} {tp} is owned by c{have[tp]} and c{i}")
             have[tp] = i
-    if set(have) != want:
+    if leader and set(have) != want:
         scn.fail("convergence", {"what": "coverage"},
                  f"at t={s1['t']} live members {sorted(live)} own {sorted(have)}; partitions of their subscribed topics are {sorted(want)}")
     if s2["generation"] != gen:
@@ -291,7 +313,8 @@ def check_c19(scn):
 
     p = scn.p
     # last commit, LeaveGroup and connection teardown may each take one request timeout when brokers are silent
-    bound = 3 * p.get("request_timeout_ms", 4000) / 1000.0 + max(SESSION, REBALANCE) + 1.0
+    # (in-flight request, last commit, LeaveGroup, connection teardown: up to four request timeouts)
+    bound = 4 * p.get("request_timeout_ms", 4000) / 1000.0 + max(SESSION, REBALANCE) + 1.0
     loop = scn.world.loop
     hung = set(getattr(scn, "hung", ()))
     for i, dur in sorted(scn.stopped.items()):
@@ -314,7 +337,8 @@ def check_c19(scn):
             scn.fail("stop-leftovers", {"what": "alive-after-stop", "kinds": ",".join(kinds)},
                      f"member c{i}: after stop() returned these things created by the client are still alive: {left[:4]}")
         g = scn.cluster.groups.get("g")
-        if (ctx.get("generation") or 0) > 0 and ctx.get("coordinator_up") and ctx.get("f_spent") == 0 and not mode and g is not None:
+        moved = getattr(scn, "_moved", False)  # a failover around the stop: whether the member can reach the new coordinator depends on rediscovery
+        if (ctx.get("generation") or 0) > 0 and ctx.get("coordinator_up") and ctx.get("f_spent") == 0 and not mode and not moved and g is not None:
             mid = ctx.get("member_id")
             end_tick = max((e[0] for e in scn.ev if e[2] == "stop-end" and e[3] == i), default=None)
             wrote_leave = any(e[2] == "gw" and e[3] == i and e[4] == "LeaveGroup" for e in scn.ev)
